@@ -25,6 +25,8 @@ func init() {
 			c.min("R-LOCKS/L1", 20)
 			c.min("R-LOCKS/L4", 15)
 			c.ruleAddBlock()
+			c.ruleRangeChain()
+			c.ruleHashesAtNumberBound()
 			c.min("R-ADDBLOCK", 5)
 			c.rulePruneStructure()
 		})
@@ -176,6 +178,7 @@ func init() {
 		func(c *Ctx) {
 			c.load(btDir)
 			c.ruleHighestLeaf()
+			c.ruleArrivalStored()
 			c.min("R-CMP/spec", 27)
 			c.ruleBestBlock()
 			c.min("R-BESTBLOCK", 4)
